@@ -31,6 +31,36 @@ CLAIMED = {
              "Outside the modelled subset (skipped): [.x.] / [=x=] inside brackets, brackets that Go closes elsewhere than compile.",
         technique="Coq proof that priority backtracking yields the extreme affix + differential correspondence (regex text and Match results)",
         design="6 C12"),
+    "C11": dict(
+        text=("Model: tokenizer, parser for arith.go.y's productions, the rule-action evaluator (values computed bottom-up, all operands of && || ?: "
+              "evaluated, lazy variable lookup, nothing evaluated after the first fault), strconv.ParseInt/Itoa and Go int arithmetic; spec: C "
+              "big-step semantics with short-circuit. Proved (all expressions, all stores): evaluation changes the store only at the names under "
+              "= op= ++ -- and never touches Args/Opts (C11_partial_...). The full refinement statement impl = C on C-defined, eager-safe "
+              "expressions is stated in Props/C11.v but NOT yet proved; it is decided on every run by the C oracle on the implementation's "
+              "answers (all depth<=2 trees over the property's operands x variable values, sampled depth 3-4, random spacing/parentheses). "
+              "Known finding F11 (no short-circuit) is reported as KNOWN-FINDING."),
+        note=BASE_NOTE + "Modelled, not verified: strconv.ParseInt/Itoa, unicode.IsLetter/IsDigit (table on a declared universe, checked against Go "
+             "on every run), goyacc's LALR tables (the model parses the same productions by precedence climbing; agreement is by correspondence).",
+        technique="Coq frame theorem on the rule-action evaluator + differential correspondence + C-semantics oracle extracted from Coq",
+        design="6 C11"),
+    "C13": dict(
+        text=("Proved (every environment, name other than @/*, word, mode, field context): the operator switch of expandParam performs exactly "
+              "the action of the POSIX table for :- - := = :? ? :+ + in each parameter state, assignment to special/positional parameters is "
+              "an error, and an unused word has no influence on fields or store. Not proved (oracle + correspondence only): $@/$* field rules, "
+              "${#p}, the four removal operators (reduce to C12), nounset. Correspondence: full product operators x states x parameter kinds "
+              "x quoting x operator words x nounset x IFS. Known finding F18 (\"$@\" with no parameters) is reported as KNOWN-FINDING."),
+        note=BASE_NOTE + "Modelled, not verified: os/user lookup (oracle table probed by the harness), pattern.Match through the C12 model.",
+        technique="Coq case-analysis proof of the POSIX table on the expandParam model + differential correspondence + table oracle",
+        design="6 C13"),
+    "C14": dict(
+        text=("Model of split/Expand's default mode and an independent specification (cut at every unquoted IFS character, keep pieces with a "
+              "character or a quoted part). Proved: a field of quoted segments is never cut; an empty IFS disables splitting. The full statement "
+              "split_model = split_spec is stated in Props/C14.v but NOT yet proved; it is decided on every run by evaluating the extracted "
+              "specification on the implementation's answers for all words of <=4 (quick) / <=6 (thorough) segments over 9 segment kinds x 7 IFS "
+              "settings plus random longer words, and by model correspondence."),
+        note=BASE_NOTE + "Modelled, not verified: unicode.IsSpace (White_Space list), utf8 decoding. Pathname expansion disabled as the property says.",
+        technique="Coq lemmas on the splitter model + differential correspondence + splitting specification extracted from Coq as oracle",
+        design="6 C14"),
 }
 
 PENDING_REASON = "check under construction in this session; not claimed until its theorems and correspondence run green"
